@@ -6,4 +6,5 @@ CONSTANTS
   Alpha <- NoAlpha
   JitSet = {}
   MaxDepth = 12
+  ItemShapeTolerant = TRUE
 CHECK_DEADLOCK FALSE
